@@ -85,13 +85,22 @@ def _default_value(s: dict):
     return "a"
 
 
+def describable(s: dict) -> bool:
+    subs = s["one"] + s["any"] + s["all"]
+    return not s["ref"] and not any(x["ref"] for x in subs)
+
+
 def is_bare_ref(s: dict) -> bool:
     return bool(s["ref"])
 
 
-def document(s: dict, positions=POSITIONS, version: str = "3.1.0", comp: bool = True) -> dict:
+def document(s: dict, positions=POSITIONS, version: str = "3.1.0", comp: bool = True, describe: bool = False) -> dict:
     """One document holding the spelling at every requested position class."""
     t = concretize(s)
+    # what the schema is for travels with it at its outermost level (a bare reference cannot carry siblings, a wrapper of one reference documents the
+    # reference's target: neither is described)
+    if describe and "$ref" not in t:          # decided on the spelling the rewrites started from (describable), the same for all its rewrites
+        t["description"] = "What this value is for."
     schemas = copy.deepcopy(COMPONENTS)
     holder: dict = {"type": "object", "properties": {"anchor": S}, "required": []}
     if "prop" in positions:
